@@ -32,6 +32,20 @@ func verifDir() string {
 	return "/verif"
 }
 
+func evidenceDir() string {
+	if d := os.Getenv("VERIF_EVIDENCE_DIR"); d != "" {
+		return d
+	}
+	return filepath.Join(verifDir(), "evidence")
+}
+
+func replayDir() string {
+	if d := os.Getenv("VERIF_EVIDENCE_DIR"); d != "" {
+		return filepath.Join(d, "replays")
+	}
+	return filepath.Join(verifDir(), "replays")
+}
+
 func seed() int64 {
 	n, _ := strconv.ParseInt(os.Getenv("VERIF_SEED"), 10, 64)
 	return n
@@ -236,7 +250,7 @@ func run(id, tier string) int {
 		}
 	}
 	sort.Strings(keys)
-	os.MkdirAll(filepath.Join(verifDir(), "replays"), 0o755)
+	os.MkdirAll(replayDir(), 0o755)
 	unknown, known := []string{}, []string{}
 	knownSeen := map[int]bool{}
 	const maxReported = 8
@@ -258,7 +272,7 @@ func run(id, tier string) int {
 				continue
 			}
 		}
-		file := filepath.Join(verifDir(), "replays", fmt.Sprintf("%s-%016x.json", id, fw.Hash64(k)))
+		file := filepath.Join(replayDir(), fmt.Sprintf("%s-%016x.json", id, fw.Hash64(k)))
 		b, _ := json.MarshalIndent(v, "", " ")
 		os.WriteFile(file, b, 0o644)
 		if ck.Replay != nil {
@@ -347,9 +361,9 @@ func run(id, tier string) int {
 		"wall_s":      time.Since(t0).Seconds(),
 		"violations":  len(unknown),
 	}
-	os.MkdirAll(filepath.Join(verifDir(), "evidence"), 0o755)
+	os.MkdirAll(evidenceDir(), 0o755)
 	b, _ := json.MarshalIndent(ev, "", " ")
-	if err := os.WriteFile(filepath.Join(verifDir(), "evidence", id+".json"), b, 0o644); err != nil {
+	if err := os.WriteFile(filepath.Join(evidenceDir(), id+".json"), b, 0o644); err != nil {
 		fmt.Println("HARNESS-ERROR writing evidence:", err)
 		return 2
 	}
